@@ -65,6 +65,8 @@ int main(int argc, char **argv) {
     if (strcmp(host, "-")) { if (unshare(CLONE_NEWUTS)) { perror("unshare uts"); return 3; } if (sethostname(host, strlen(host))) { perror("sethostname"); return 3; } }
     /* ---- orphan: be re-parented to init / the nearest subreaper (ancestor chain of length one) */
     if (atoi(kv(kvs, "orphan", "0"))) { pid_t p = fork(); if (p > 0) _exit(0); for (int i = 0; i < 2000 && getppid() != 1 && i < 200; i++) usleep(1000); }
+    /* ---- own process group (pgid == pid, session unchanged): tells sid from pgid */
+    if (atoi(kv(kvs, "newpgrp", "0"))) { pid_t p = fork(); if (p > 0) { int st; waitpid(p, &st, 0); _exit(WIFEXITED(st) ? WEXITSTATUS(st) : 99); } setpgid(0, 0); }
     /* ---- session */
     if (atoi(kv(kvs, "setsid", "0"))) { pid_t p = fork(); if (p > 0) { int st; waitpid(p, &st, 0); _exit(WIFEXITED(st) ? WEXITSTATUS(st) : 99); } setsid(); }
     /* ---- stdin */
@@ -91,7 +93,7 @@ int main(int argc, char **argv) {
     else if (!strcmp(en, "huge")) { for (int i = 0; i < 300; i++) { char k[32], v[64]; snprintf(k, sizeof k, "K%03d", i); memset(v, 'h', 30); v[30] = 0; setenv(k, v, 1); } }
     if (atoi(kv(kvs, "sudo", "0"))) setenv("SUDO_USER", "sudoer", 1);
     if (atoi(kv(kvs, "logname", "0"))) setenv("LOGNAME", "lognm", 1);
-    setenv("TZ", "UTC", 1);
+    setenv("TZ", kv(kvs, "tz", "UTC"), 1);   /* a POSIX TZ string: no zoneinfo files needed */
     /* ---- ids (last: needs privileges for everything above) */
     long r, e, s, rg, eg, sg;
     if (sscanf(kv(kvs, "ids", "0,0,0,0,0,0"), "%ld,%ld,%ld,%ld,%ld,%ld", &r, &e, &s, &rg, &eg, &sg) == 6) {
